@@ -14,7 +14,7 @@ const GLOBALS_NOVAL: &[&str] = &["-p", "--paginate", "-P", "--no-pager", "--no-r
 const GLOBALS_VAL: &[(&str, &str)] = &[("-C", "."), ("-c", "a.b=c"), ("--git-dir", ".git"), ("--work-tree", "."), ("--namespace", "ns"), ("--exec-path", "/usr/lib/git-core"),
     ("--config-env", "x.y=HOME"), ("--attr-source", "HEAD"), ("--list-cmds", "main")];
 const META: &[&str] = &["--version", "-v", "--help", "-h", "--html-path", "--man-path", "--info-path", "--exec-path"];
-const COMMANDS: &[&str] = &["status", "log", "commit", "add", "diff", "rev-parse", "branch", "checkout", "stash", "version", "help", "nosuch", "st", "lg", "rec", "sh", "q", "loop1", "-weird"];
+const COMMANDS: &[&str] = &["status", "log", "commit", "add", "diff", "rev-parse", "branch", "checkout", "stash", "version", "help", "nosuch", "st", "lg", "rec", "sh", "q", "loop1", "pg", "ppg", "pst", "lg2", "-weird"];
 const CMD_ARGS: &[&str] = &["-s", "--oneline", "-1", "-m", "msg", "--", "a.txt", "-C", "HEAD", "--git-dir", "-c", "x=y", "--help", "-h", "--version", "status", "commit", "--", "-p", "-v", "--all"];
 const UNKNOWN: &[&str] = &["--nonsense", "-x", "-Z", "--git-dirx", "--version=1", "-cfoo", "-Cdir"];
 
@@ -96,7 +96,7 @@ pub fn run(seed: u64, n: usize, extra: &[String]) -> String {
         }
         if let Some(r) = repo.as_ref() {
             if let Some(cmd) = parsed.command.as_deref() {
-                if ["st", "lg", "rec", "sh", "q", "loop1"].contains(&cmd) && aliases.len() < emit {
+                if ["st", "lg", "rec", "sh", "q", "loop1", "lg2", "pg", "ppg", "pst"].contains(&cmd) && aliases.len() < emit {
                     let p2 = parsed.clone();
                     let r2 = r.clone();
                     match guarded(panic::AssertUnwindSafe(move || resolve_alias_impl(&p2, &r2))) {
